@@ -141,7 +141,13 @@ CO_ERR COSdoResponse(CO_SDO *srv)
         }
         return (result);
     } else if (srv->Blk.State == BLK_UPLOAD) {
-        if (cmd == 0xA1) {
+        if ((cmd == 0xA3) && (srv->Blk.SegCnt == 0)) {
+            /* start of block upload: first block is not sent, yet */
+            result = COSdoUploadBlock(srv);
+        } else if (srv->Blk.SegCnt == 0) {
+            COSdoAbort(srv, CO_SDO_ERR_CMD);
+            COSdoAbortReq(srv);
+        } else if (cmd == 0xA1) {
             result = COSdoEndUploadBlock(srv);
         } else if ((cmd & 0xE3) == 0xA2) {
             result = COSdoAckUploadBlock(srv);
@@ -183,8 +189,6 @@ CO_ERR COSdoResponse(CO_SDO *srv)
         }
     } else if ((cmd & 0xE3) == 0xA0) {
         result = COSdoInitUploadBlock(srv);
-    } else if (cmd == 0xA3) {
-        result = COSdoUploadBlock(srv);
 
     /* invalid or unknown command */
     } else {
@@ -745,6 +749,8 @@ CO_ERR COSdoInitUploadBlock(CO_SDO *srv)
     srv->Blk.LastValid = 0xFF;
     srv->Blk.Len       = srv->Blk.Size;
     srv->Blk.SegOk     = 0;
+    srv->Blk.SegCnt    = 0;
+    srv->Blk.State     = BLK_UPLOAD;
 
     if (size <= 4) {
         /* no action for basic type entry */
